@@ -62,40 +62,49 @@ Theorem nexp_no_double_minus e c : can (shape e) = true -> no_double_minus (shap
 Proof. intros H. rewrite shape_nexp. apply (R_no_double_minus c (shape e)); [apply fmt_single_R|exact H]. Qed.
 
 (* ---------- C02 (b): the erasure of the printed tokens is untouched by normalisation ---------- *)
-Section Erase.
-Variable d : dial.
+(* The two observations the properties use - the semantic erasure (C02) and the comment census (C03) - are both
+   homomorphisms from token lists that do not see parentheses, commas and blanks: the proofs are written once. *)
+Section Obs.
+Context {X : Type}.
+Variable obs : list tok -> list X.
+Hypothesis obs_nil : obs [] = [].
+Hypothesis obs_app : forall a b, obs (a ++ b) = obs a ++ obs b.
+Hypothesis obs_cons : forall t r r', obs r = obs r' -> obs (t :: r) = obs (t :: r').
+Hypothesis obs_lparen : forall r, obs (kw "(" :: r) = obs r.
+Hypothesis obs_rparen : obs [kw ")"] = [].
+Hypothesis obs_comma : forall r, obs (kw "," :: sp :: r) = obs r.
+Section ObsExp.
 Variable st : QuoteMore.style.
 Notation pexp := (Fmt0.pexp st).
-Lemma erase_kw_paren_l r : erase d (kw "(" :: r) = erase d r. Proof. reflexivity. Qed.
-Lemma erase_kw_paren_r : erase d [kw ")"] = []. Proof. reflexivity. Qed.
-Lemma erase_commas l : erase d (commas l) = List.concat (map (erase d) l).
+Lemma erase_kw_paren_l r : obs (kw "(" :: r) = obs r. Proof. apply obs_lparen. Qed.
+Lemma erase_kw_paren_r : obs [kw ")"] = []. Proof. apply obs_rparen. Qed.
+Lemma erase_commas l : obs (commas l) = List.concat (map obs l).
 Proof.
-  induction l as [|x r IH]; [reflexivity|]. destruct r as [|y r'].
+  induction l as [|x r IH]; [exact obs_nil|]. destruct r as [|y r'].
   - cbn [commas map List.concat]. rewrite app_nil_r. reflexivity.
   - change (commas (x :: y :: r')) with (x ++ kw "," :: sp :: commas (y :: r')).
-    rewrite erase_app. change (erase d (kw "," :: sp :: commas (y :: r'))) with (erase d (commas (y :: r'))).
-    rewrite IH. reflexivity.
+    rewrite obs_app, obs_comma, IH. reflexivity.
 Qed.
 Lemma map_ext_Forall {A B} (f g : A -> B) l : Forall (fun x => f x = g x) l -> map f l = map g l.
 Proof. induction 1; cbn; congruence. Qed.
-Lemma erase_cons t r r' : erase d r = erase d r' -> erase d (t :: r) = erase d (t :: r').
-Proof. intros H. destruct t; cbn [erase]; rewrite H; reflexivity. Qed.
-Lemma erase_app_congr a a' b b' : erase d a = erase d a' -> erase d b = erase d b' -> erase d (a ++ b) = erase d (a' ++ b').
-Proof. intros H1 H2. rewrite !erase_app, H1, H2. reflexivity. Qed.
+Lemma erase_cons t r r' : obs r = obs r' -> obs (t :: r) = obs (t :: r').
+Proof. apply obs_cons. Qed.
+Lemma obs_app_congr a a' b b' : obs a = obs a' -> obs b = obs b' -> obs (a ++ b) = obs (a' ++ b').
+Proof. intros H1 H2. rewrite !obs_app, H1, H2. reflexivity. Qed.
 Lemma erase_commas_congr (f g : exp -> list tok) l :
-  Forall (fun x => erase d (f x) = erase d (g x)) l -> erase d (commas (map f l)) = erase d (commas (map g l)).
+  Forall (fun x => obs (f x) = obs (g x)) l -> obs (commas (map f l)) = obs (commas (map g l)).
 Proof.
   intros H. rewrite !erase_commas, !map_map. f_equal. induction H as [|x r Hx Hr IH]; cbn [map]; [reflexivity|]. rewrite Hx, IH. reflexivity.
 Qed.
-Lemma erase_parens x : erase d (kw "(" :: pexp x ++ [kw ")"]) = erase d (pexp x).
-Proof. rewrite erase_kw_paren_l, erase_app, erase_kw_paren_r, app_nil_r. reflexivity. Qed.
-Lemma erase_guard u x : erase d (pexp (guard0 u x)) = erase d (pexp x).
+Lemma erase_parens x : obs (kw "(" :: pexp x ++ [kw ")"]) = obs (pexp x).
+Proof. rewrite erase_kw_paren_l, obs_app, erase_kw_paren_r, app_nil_r. reflexivity. Qed.
+Lemma erase_guard u x : obs (pexp (guard0 u x)) = obs (pexp x).
 Proof.
   unfold guard0. destruct u; try reflexivity. destruct (starts_neg (shape x)); [|reflexivity].
   cbn [pexp]. apply erase_parens.
 Qed.
-Ltac congr := repeat first [ reflexivity | assumption | apply erase_app_congr | apply erase_cons ].
-Lemma erase_pexp_nexp : forall e c, erase d (pexp (nexp c e)) = erase d (pexp e).
+Ltac congr := repeat first [ reflexivity | assumption | apply obs_app_congr | apply erase_cons ].
+Lemma erase_pexp_nexp : forall e c, obs (pexp (nexp c e)) = obs (pexp e).
 Proof.
   induction e using exp_ind'; intros c; cbn [nexp]; try reflexivity.
   - (* EField *) cbn [pexp]. congr. apply IHe.
@@ -119,126 +128,271 @@ Proof.
   - (* FNamed *) cbn [pexp]. congr. apply IHe.
   - (* FKey *) cbn [pexp]. congr; [apply IHe1|apply IHe2].
 Qed.
-End Erase.
+End ObsExp.
 
 (* ---------- statements: unfolding equations and induction with the nested blocks ---------- *)
-Definition fbody (c : cfg0) (d : nat) (b : list stmt) : list tok :=
-  match b with [] => [sp; kw "end"] | _ => eol c :: pblock c (S d) b ++ indent c d ++ [kw "end"] end.
+Definition fbody (c : cfg0) (d : nat) (b : blk) : list tok :=
+  if blk_empty b then [sp; kw "end"] else eol c :: pblk c (S d) b ++ indent c d ++ [kw "end"].
 Section Unfold.
 Variables (c : cfg0) (d : nat).
 Notation pexp := (Fmt0.pexp (style0 c)).
 Notation pexps := (Fmt0.pexps (style0 c)).
-Lemma p_do b : pstmt c d (SDo b) = kw "do" :: eol c :: pblock c (S d) b ++ indent c d ++ [kw "end"]. Proof. reflexivity. Qed.
-Lemma p_while e b : pstmt c d (SWhile e b) = kw "while" :: sp :: pexp e ++ sp :: kw "do" :: eol c :: pblock c (S d) b ++ indent c d ++ [kw "end"]. Proof. reflexivity. Qed.
-Lemma p_repeat b e : pstmt c d (SRepeat b e) = kw "repeat" :: eol c :: pblock c (S d) b ++ indent c d ++ kw "until" :: sp :: pexp e. Proof. reflexivity. Qed.
-Lemma p_if e t r : pstmt c d (SIf e t r) = kw "if" :: sp :: pexp e ++ sp :: kw "then" :: eol c :: pblock c (S d) t ++ pels c d r ++ indent c d ++ [kw "end"]. Proof. reflexivity. Qed.
+Lemma p_do b : pstmt c d (SDo b) = kw "do" :: eol c :: pblk c (S d) b ++ indent c d ++ [kw "end"]. Proof. reflexivity. Qed.
+Lemma p_while e b : pstmt c d (SWhile e b) = kw "while" :: sp :: pexp e ++ sp :: kw "do" :: eol c :: pblk c (S d) b ++ indent c d ++ [kw "end"]. Proof. reflexivity. Qed.
+Lemma p_repeat b e : pstmt c d (SRepeat b e) = kw "repeat" :: eol c :: pblk c (S d) b ++ indent c d ++ kw "until" :: sp :: pexp e. Proof. reflexivity. Qed.
+Lemma p_if e t r : pstmt c d (SIf e t r) = kw "if" :: sp :: pexp e ++ sp :: kw "then" :: eol c :: pblk c (S d) t ++ pels c d r ++ indent c d ++ [kw "end"]. Proof. reflexivity. Qed.
 Lemma p_numfor v a b st body : pstmt c d (SNumFor v a b st body) =
   kw "for" :: sp :: TIdent v :: sp :: kw "=" :: sp :: pexp a ++ kw "," :: sp :: pexp b ++
-  (match st with Some x => kw "," :: sp :: pexp x | None => [] end) ++ sp :: kw "do" :: eol c :: pblock c (S d) body ++ indent c d ++ [kw "end"]. Proof. reflexivity. Qed.
+  (match st with Some x => kw "," :: sp :: pexp x | None => [] end) ++ sp :: kw "do" :: eol c :: pblk c (S d) body ++ indent c d ++ [kw "end"]. Proof. reflexivity. Qed.
 Lemma p_genfor ns es body : pstmt c d (SGenFor ns es body) =
-  kw "for" :: sp :: pnames ns ++ sp :: kw "in" :: sp :: pexps es ++ sp :: kw "do" :: eol c :: pblock c (S d) body ++ indent c d ++ [kw "end"]. Proof. reflexivity. Qed.
+  kw "for" :: sp :: pnames ns ++ sp :: kw "in" :: sp :: pexps es ++ sp :: kw "do" :: eol c :: pblk c (S d) body ++ indent c d ++ [kw "end"]. Proof. reflexivity. Qed.
 Lemma p_function p m ps va body : pstmt c d (SFunction p m ps va body) =
-  kw "function" :: sp :: dotted p ++ (match m with Some n => [kw ":"; TIdent n] | None => [] end) ++ pparams ps va ++ fbody c d body. Proof. destruct body; reflexivity. Qed.
+  kw "function" :: sp :: dotted p ++ (match m with Some n => [kw ":"; TIdent n] | None => [] end) ++ pparams ps va ++ fbody c d body. Proof. reflexivity. Qed.
 Lemma p_localfunction n ps va body : pstmt c d (SLocalFunction n ps va body) =
-  kw "local" :: sp :: kw "function" :: sp :: TIdent n :: pparams ps va ++ fbody c d body. Proof. destruct body; reflexivity. Qed.
-Lemma p_else b : pels c d (Else b) = indent c d ++ kw "else" :: eol c :: pblock c (S d) b. Proof. reflexivity. Qed.
-Lemma p_elseif e t r : pels c d (ElseIf e t r) = indent c d ++ kw "elseif" :: sp :: pexp e ++ sp :: kw "then" :: eol c :: pblock c (S d) t ++ pels c d r. Proof. reflexivity. Qed.
-Lemma pblock_cons s r : pblock c d (s :: r) = indent c d ++ pstmt c d s ++ eol c :: pblock c d r.
-Proof. unfold pblock. cbn [map List.concat]. rewrite <- !app_assoc. reflexivity. Qed.
+  kw "local" :: sp :: kw "function" :: sp :: TIdent n :: pparams ps va ++ fbody c d body. Proof. reflexivity. Qed.
+Lemma p_else b : pels c d (Else b) = indent c d ++ kw "else" :: eol c :: pblk c (S d) b. Proof. reflexivity. Qed.
+Lemma p_elseif e t r : pels c d (ElseIf e t r) = indent c d ++ kw "elseif" :: sp :: pexp e ++ sp :: kw "then" :: eol c :: pblk c (S d) t ++ pels c d r. Proof. reflexivity. Qed.
+Lemma p_item l b s t : pitem c d (Item l b s t) = ptrivia c d l ++ (if b then [eol c] else []) ++ indent c d ++ pstmt c d s ++ ptrail t ++ [eol c]. Proof. reflexivity. Qed.
+Lemma p_blk is tl : pblk c d (Blk is tl) = List.concat (map (pitem c d) is) ++ ptrivia c d tl. Proof. reflexivity. Qed.
 End Unfold.
 
 Section StmtInd.
-Variables (P : stmt -> Prop) (Q : els -> Prop).
+Variables (P : stmt -> Prop) (Q : els -> Prop) (I : item -> Prop) (B : blk -> Prop).
 Hypothesis Hlocal : forall ns es, P (SLocal ns es).
 Hypothesis Hassign : forall vs es, P (SAssign vs es).
 Hypothesis Hcall : forall e, P (SCall e).
-Hypothesis Hdo : forall b, Forall P b -> P (SDo b).
-Hypothesis Hwhile : forall e b, Forall P b -> P (SWhile e b).
-Hypothesis Hrepeat : forall b e, Forall P b -> P (SRepeat b e).
-Hypothesis Hif : forall e t r, Forall P t -> Q r -> P (SIf e t r).
-Hypothesis Hnumfor : forall v a b st body, Forall P body -> P (SNumFor v a b st body).
-Hypothesis Hgenfor : forall ns es body, Forall P body -> P (SGenFor ns es body).
-Hypothesis Hfunction : forall p m ps va body, Forall P body -> P (SFunction p m ps va body).
-Hypothesis Hlocalfunction : forall n ps va body, Forall P body -> P (SLocalFunction n ps va body).
+Hypothesis Hdo : forall b, B b -> P (SDo b).
+Hypothesis Hwhile : forall e b, B b -> P (SWhile e b).
+Hypothesis Hrepeat : forall b e, B b -> P (SRepeat b e).
+Hypothesis Hif : forall e t r, B t -> Q r -> P (SIf e t r).
+Hypothesis Hnumfor : forall v a b st body, B body -> P (SNumFor v a b st body).
+Hypothesis Hgenfor : forall ns es body, B body -> P (SGenFor ns es body).
+Hypothesis Hfunction : forall p m ps va body, B body -> P (SFunction p m ps va body).
+Hypothesis Hlocalfunction : forall n ps va body, B body -> P (SLocalFunction n ps va body).
 Hypothesis Hreturn : forall es, P (SReturn es).
 Hypothesis Hbreak : P SBreak.
 Hypothesis Hnoelse : Q NoElse.
-Hypothesis Helse : forall b, Forall P b -> Q (Else b).
-Hypothesis Helseif : forall e t r, Forall P t -> Q r -> Q (ElseIf e t r).
+Hypothesis Helse : forall b, B b -> Q (Else b).
+Hypothesis Helseif : forall e t r, B t -> Q r -> Q (ElseIf e t r).
+Hypothesis Hitem : forall l b s t, P s -> I (Item l b s t).
+Hypothesis Hblk : forall is tl, Forall I is -> B (Blk is tl).
 Fixpoint stmt_ind' (s : stmt) : P s :=
-  let all := fix all (l : list stmt) : Forall P l := match l with [] => Forall_nil P | x :: r => Forall_cons x (stmt_ind' x) (all r) end in
-  let els' := fix els' (r : els) : Q r :=
-    match r with NoElse => Hnoelse | Else b => Helse b (all b) | ElseIf e t r2 => Helseif e t r2 (all t) (els' r2) end in
   match s with
   | SLocal ns es => Hlocal ns es | SAssign vs es => Hassign vs es | SCall e => Hcall e
-  | SDo b => Hdo b (all b) | SWhile e b => Hwhile e b (all b) | SRepeat b e => Hrepeat b e (all b)
-  | SIf e t r => Hif e t r (all t) (els' r)
-  | SNumFor v a b st body => Hnumfor v a b st body (all body)
-  | SGenFor ns es body => Hgenfor ns es body (all body)
-  | SFunction p m ps va body => Hfunction p m ps va body (all body)
-  | SLocalFunction n ps va body => Hlocalfunction n ps va body (all body)
+  | SDo b => Hdo b (blk_ind' b) | SWhile e b => Hwhile e b (blk_ind' b) | SRepeat b e => Hrepeat b e (blk_ind' b)
+  | SIf e t r => Hif e t r (blk_ind' t) (els_ind' r)
+  | SNumFor v a b st body => Hnumfor v a b st body (blk_ind' body)
+  | SGenFor ns es body => Hgenfor ns es body (blk_ind' body)
+  | SFunction p m ps va body => Hfunction p m ps va body (blk_ind' body)
+  | SLocalFunction n ps va body => Hlocalfunction n ps va body (blk_ind' body)
   | SReturn es => Hreturn es | SBreak => Hbreak
+  end
+with els_ind' (r : els) : Q r :=
+  match r with NoElse => Hnoelse | Else b => Helse b (blk_ind' b) | ElseIf e t r2 => Helseif e t r2 (blk_ind' t) (els_ind' r2) end
+with item_ind' (i : item) : I i := match i with Item l b s t => Hitem l b s t (stmt_ind' s) end
+with blk_ind' (b : blk) : B b :=
+  match b with
+  | Blk is tl => Hblk is tl ((fix all (l : list item) : Forall I l := match l with [] => Forall_nil I | x :: r => Forall_cons x (item_ind' x) (all r) end) is)
   end.
 End StmtInd.
 
 (* ---------- C02 on whole programs: normalisation is invisible to the semantic erasure ---------- *)
-Opaque pblock.
 Section EraseProg.
-Variables (dl : dial) (c : cfg0).
+Variable c : cfg0.
 Notation pexp := (Fmt0.pexp (style0 c)).
 Notation pexps := (Fmt0.pexps (style0 c)).
-Ltac congr := repeat first [ reflexivity | assumption | apply erase_app_congr | apply erase_cons ].
-Lemma erase_ncond e : erase dl (pexp (ncond e)) = erase dl (pexp e).
+Ltac congr := repeat first [ reflexivity | assumption | apply obs_app_congr | apply erase_cons ].
+Lemma erase_ncond e : obs (pexp (ncond e)) = obs (pexp e).
 Proof.
-  destruct e; try apply erase_pexp_nexp. unfold ncond. rewrite erase_pexp_nexp. cbn [pexp]. symmetry. apply erase_parens.
+  destruct e; try apply erase_pexp_nexp. unfold ncond. rewrite erase_pexp_nexp. cbn [Fmt0.pexp]. symmetry. apply erase_parens.
 Qed.
-Lemma erase_pexps es : erase dl (pexps (nexps es)) = erase dl (pexps es).
+Lemma erase_pexps es : obs (pexps (nexps es)) = obs (pexps es).
 Proof.
-  unfold pexps, nexps. rewrite map_map. apply (erase_commas_congr dl (fun x => pexp (nexp Std x)) (fun x => pexp x)).
+  unfold Fmt0.pexps, nexps. rewrite map_map. apply (erase_commas_congr (fun x => pexp (nexp Std x)) (fun x => pexp x)).
   apply Forall_forall. intros x _. apply erase_pexp_nexp.
 Qed.
-Definition Ps (s : stmt) : Prop := forall d, erase dl (pstmt c d (nstmt s)) = erase dl (pstmt c d s).
-Definition Qe (r : els) : Prop := forall d, erase dl (pels c d (nels r)) = erase dl (pels c d r).
-Lemma erase_pblock b : Forall Ps b -> forall d, erase dl (pblock c d (map nstmt b)) = erase dl (pblock c d b).
+Definition Ps (s : stmt) : Prop := forall d, obs (pstmt c d (nstmt s)) = obs (pstmt c d s).
+Definition Qe (r : els) : Prop := forall d, obs (pels c d (nels r)) = obs (pels c d r).
+Definition Ie (i : item) : Prop := forall d, obs (pitem c d (nitem i)) = obs (pitem c d i).
+Definition Be (b : blk) : Prop := forall d, obs (pblk c d (nblk b)) = obs (pblk c d b).
+Lemma blk_empty_nblk b : blk_empty (nblk b) = blk_empty b.
+Proof. destruct b as [is tl]. destruct is; reflexivity. Qed.
+Lemma erase_fbody b : Be b -> forall d, obs (fbody c d (nblk b)) = obs (fbody c d b).
 Proof.
-  induction 1 as [|s r Hs Hr IH]; intros d; [reflexivity|]. cbn [map]. rewrite !pblock_cons. congr; [apply Hs|apply IH].
+  intros H d. unfold fbody. rewrite blk_empty_nblk. destruct (blk_empty b); [reflexivity|].
+  apply erase_cons. apply obs_app_congr; [apply H|reflexivity].
 Qed.
-Lemma erase_fbody b : Forall Ps b -> forall d, erase dl (fbody c d (map nstmt b)) = erase dl (fbody c d b).
+Lemma erase_concat_items is : Forall Ie is -> forall d, obs (List.concat (map (pitem c d) (map nitem is))) = obs (List.concat (map (pitem c d) is)).
 Proof.
-  intros H d. destruct b as [|s r]; [reflexivity|].
-  change (fbody c d (map nstmt (s :: r))) with (eol c :: pblock c (S d) (map nstmt (s :: r)) ++ indent c d ++ [kw "end"]).
-  change (fbody c d (s :: r)) with (eol c :: pblock c (S d) (s :: r) ++ indent c d ++ [kw "end"]).
-  apply erase_cons. apply erase_app_congr; [apply (erase_pblock (s :: r) H)|reflexivity].
+  induction 1 as [|i r Hi Hr IH]; intros d; [reflexivity|]. cbn [map List.concat]. apply obs_app_congr; [apply Hi|apply IH].
 Qed.
-Lemma erase_pstmt_nstmt : forall s, Ps s.
+Opaque pblk.
+Lemma erase_prog_all : (forall s, Ps s) /\ (forall b, Be b).
 Proof.
-  apply (stmt_ind' Ps Qe); unfold Ps, Qe; intros.
-  - (* SLocal *) cbn [nstmt]. destruct es as [|e es']; [reflexivity|].
-    change (nexps (e :: es')) with (nexp Std e :: nexps es'). cbn [pstmt]. congr.
-    change (nexp Std e :: nexps es') with (nexps (e :: es')). apply erase_pexps.
-  - (* SAssign *) cbn [nstmt pstmt]. congr; apply erase_pexps.
-  - (* SCall *) cbn [nstmt pstmt]. apply erase_pexp_nexp.
-  - (* SDo *) cbn [nstmt]. rewrite !p_do. congr. apply erase_pblock. assumption.
-  - (* SWhile *) cbn [nstmt]. rewrite !p_while. congr; [apply erase_ncond|apply erase_pblock; assumption].
-  - (* SRepeat *) cbn [nstmt]. rewrite !p_repeat. congr; [apply erase_pblock; assumption|apply erase_ncond].
-  - (* SIf *) cbn [nstmt]. rewrite !p_if. congr; [apply erase_ncond|apply erase_pblock; assumption|apply H0].
-  - (* SNumFor *) cbn [nstmt]. rewrite !p_numfor. congr; try apply erase_pexp_nexp; [|apply erase_pblock; assumption].
-    destruct st as [x|]; cbn [option_map]; congr. apply erase_pexp_nexp.
-  - (* SGenFor *) cbn [nstmt]. rewrite !p_genfor. congr; [apply erase_pexps|apply erase_pblock; assumption].
-  - (* SFunction *) cbn [nstmt]. rewrite !p_function. congr. apply erase_fbody. assumption.
-  - (* SLocalFunction *) cbn [nstmt]. rewrite !p_localfunction. congr. apply erase_fbody. assumption.
-  - (* SReturn *) cbn [nstmt]. destruct es as [|e es']; [reflexivity|].
-    change (nexps (e :: es')) with (nexp Std e :: nexps es'). cbn [pstmt]. congr.
-    change (nexp Std e :: nexps es') with (nexps (e :: es')). apply erase_pexps.
-  - (* SBreak *) reflexivity.
-  - (* NoElse *) reflexivity.
-  - (* Else *) cbn [nels]. rewrite !p_else. congr. apply erase_pblock. assumption.
-  - (* ElseIf *) cbn [nels]. rewrite !p_elseif. congr; [apply erase_ncond|apply erase_pblock; assumption|apply H0].
+  assert (H : forall s, Ps s); [|split; [exact H|]].
+  - apply (stmt_ind' Ps Qe Ie Be); unfold Ps, Qe, Ie, Be; intros.
+    + (* SLocal *) cbn [nstmt]. destruct es as [|e es']; [reflexivity|].
+      change (nexps (e :: es')) with (nexp Std e :: nexps es'). cbn [pstmt]. congr.
+      change (nexp Std e :: nexps es') with (nexps (e :: es')). apply erase_pexps.
+    + (* SAssign *) cbn [nstmt pstmt]. congr; apply erase_pexps.
+    + (* SCall *) cbn [nstmt pstmt]. apply erase_pexp_nexp.
+    + (* SDo *) cbn [nstmt]. rewrite !p_do. congr. apply H.
+    + (* SWhile *) cbn [nstmt]. rewrite !p_while. congr; [apply erase_ncond|apply H].
+    + (* SRepeat *) cbn [nstmt]. rewrite !p_repeat. congr; [apply H|apply erase_ncond].
+    + (* SIf *) cbn [nstmt]. rewrite !p_if. congr; [apply erase_ncond|apply H|apply H0].
+    + (* SNumFor *) cbn [nstmt]. rewrite !p_numfor. congr; try apply erase_pexp_nexp; [|apply H].
+      destruct st as [x|]; cbn [option_map]; congr. apply erase_pexp_nexp.
+    + (* SGenFor *) cbn [nstmt]. rewrite !p_genfor. congr; [apply erase_pexps|apply H].
+    + (* SFunction *) cbn [nstmt]. rewrite !p_function. congr. apply erase_fbody. exact H.
+    + (* SLocalFunction *) cbn [nstmt]. rewrite !p_localfunction. congr. apply erase_fbody. exact H.
+    + (* SReturn *) cbn [nstmt]. destruct es as [|e es']; [reflexivity|].
+      change (nexps (e :: es')) with (nexp Std e :: nexps es'). cbn [pstmt]. congr.
+      change (nexp Std e :: nexps es') with (nexps (e :: es')). apply erase_pexps.
+    + (* SBreak *) reflexivity.
+    + (* NoElse *) reflexivity.
+    + (* Else *) cbn [nels]. rewrite !p_else. congr. apply H.
+    + (* ElseIf *) cbn [nels]. rewrite !p_elseif. congr; [apply erase_ncond|apply H|apply H0].
+    + (* Item *) cbn [nitem]. rewrite !p_item. congr. apply H.
+    + (* Blk *) cbn [nblk]. rewrite !p_blk. apply obs_app_congr; [apply erase_concat_items; exact H|reflexivity].
+  - intros b. destruct b as [is tl]. unfold Be. intros d. cbn [nblk]. rewrite !p_blk.
+    apply obs_app_congr; [|reflexivity]. apply erase_concat_items. apply Forall_forall. intros i _.
+    destruct i as [l bl s t]. unfold Ie. intros d0. cbn [nitem]. rewrite !p_item. congr. apply H.
 Qed.
-Theorem format0_keeps_erasure p : erase dl (pprog c (nprog p)) = erase dl (pprog c p).
-Proof. unfold pprog, nprog. apply erase_pblock. apply Forall_forall. intros s _. apply erase_pstmt_nstmt. Qed.
+Transparent pblk.
+Theorem format0_keeps_obs p : obs (pprog c (nprog p)) = obs (pprog c p).
+Proof. unfold pprog, nprog. apply (proj2 erase_prog_all). Qed.
 End EraseProg.
-Transparent pblock.
+End Obs.
+
+(* the two instances *)
+Lemma erase_cons_inst dl t r r' : erase dl r = erase dl r' -> erase dl (t :: r) = erase dl (t :: r').
+Proof. intros H. destruct t; cbn [erase]; rewrite H; reflexivity. Qed.
+Theorem format0_keeps_erasure dl c p : erase dl (pprog c (nprog p)) = erase dl (pprog c p).
+Proof.
+  apply (format0_keeps_obs (erase dl)); [reflexivity|apply erase_app|apply erase_cons_inst|reflexivity|reflexivity|reflexivity].
+Qed.
+Lemma census_cons_inst t r r' : census r = census r' -> census (t :: r) = census (t :: r').
+Proof. intros H. cbn [census]. rewrite H. reflexivity. Qed.
+Lemma census_app a b : census (a ++ b) = census a ++ census b.
+Proof. induction a as [|t a IH]; [reflexivity|]. cbn [app census]. rewrite IH. destruct (norm_com t); reflexivity. Qed.
+(* C03 on L0: normalisation leaves every comment where it is *)
+Theorem format0_keeps_comments c p : census (pprog c (nprog p)) = census (pprog c p).
+Proof.
+  apply (format0_keeps_obs census); [reflexivity|apply census_app|apply census_cons_inst|reflexivity|reflexivity|reflexivity].
+Qed.
+
+(* ---------- C03 on whole programs: the comments of the output are the comments of the program, each once, in order ---------- *)
+Fixpoint coms_s (s : stmt) : list bytes :=
+  match s with
+  | SDo b | SWhile _ b | SRepeat b _ | SNumFor _ _ _ _ b | SGenFor _ _ b | SFunction _ _ _ _ b | SLocalFunction _ _ _ b => coms_b b
+  | SIf _ t r => coms_b t ++ coms_e r
+  | _ => []
+  end
+with coms_e (r : els) : list bytes := match r with NoElse => [] | Else b => coms_b b | ElseIf _ t r2 => coms_b t ++ coms_e r2 end
+with coms_i (i : item) : list bytes := match i with Item l _ s t => map snd l ++ coms_s s ++ match t with Some x => [x] | None => [] end end
+with coms_b (b : blk) : list bytes := match b with Blk is tl => List.concat (map coms_i is) ++ map snd tl end.
+Section CensusProg.
+Variable c : cfg0.
+Notation pexp := (Fmt0.pexp (style0 c)).
+Notation pexps := (Fmt0.pexps (style0 c)).
+Definition lc (l : list bytes) : list com := map (fun x => LineC (trim_end x)) l.
+Lemma census_kw s r : census (kw s :: r) = census r. Proof. reflexivity. Qed.
+Lemma census_sp r : census (sp :: r) = census r. Proof. reflexivity. Qed.
+Lemma census_ident n r : census (TIdent n :: r) = census r. Proof. reflexivity. Qed.
+Lemma census_com x r : census (TLineCom x :: r) = LineC (trim_end x) :: census r. Proof. reflexivity. Qed.
+Lemma census_eol r : census (eol c :: r) = census r. Proof. reflexivity. Qed.
+Lemma census_indent d r : census (indent c d ++ r) = census r. Proof. destruct d; reflexivity. Qed.
+Lemma census_commas l : Forall (fun x => census x = []) l -> census (commas l) = [].
+Proof.
+  induction 1 as [|x r Hx Hr IH]; [reflexivity|]. destruct r as [|y r']; [cbn [commas]; exact Hx|].
+  change (commas (x :: y :: r')) with (x ++ kw "," :: sp :: commas (y :: r')). rewrite census_app, Hx, census_kw, census_sp. exact IH.
+Qed.
+Lemma census_pexp : forall e, census (pexp e) = [].
+Proof.
+  induction e using exp_ind'; cbn [Fmt0.pexp]; try reflexivity.
+  - rewrite census_app, IHe. reflexivity.
+  - rewrite census_app, IHe1, census_kw, census_app, IHe2. reflexivity.
+  - rewrite census_app, IHe, census_kw, census_app, census_commas; [reflexivity|apply Forall_map; exact H].
+  - rewrite census_app, IHe, census_kw, census_ident, census_kw, census_app, census_commas; [reflexivity|apply Forall_map; exact H].
+  - rewrite census_app, IHe. destruct u; reflexivity.
+  - rewrite census_app, IHe1, census_sp, census_kw, census_sp. exact IHe2.
+  - rewrite census_kw, census_app, IHe. reflexivity.
+  - destruct fs as [|f fs]; [reflexivity|]. rewrite census_kw, census_sp, census_app, census_commas; [reflexivity|apply Forall_map; exact H].
+  - exact IHe.
+  - rewrite census_ident, census_sp, census_kw, census_sp. exact IHe.
+  - rewrite census_kw, census_app, IHe1, census_kw, census_sp, census_kw, census_sp. exact IHe2.
+Qed.
+Lemma census_pexps es : census (pexps es) = [].
+Proof. apply census_commas. apply Forall_map. apply Forall_forall. intros x _. apply census_pexp. Qed.
+Lemma census_pnames ns : census (pnames ns) = [].
+Proof. apply census_commas. apply Forall_map. apply Forall_forall. intros x _. reflexivity. Qed.
+Lemma census_dotted p : census (dotted p) = [].
+Proof. induction p as [|n r IH]; [reflexivity|]. destruct r; [reflexivity|]. exact IH. Qed.
+Lemma census_pparams ps va : census (pparams ps va) = [].
+Proof.
+  unfold pparams. rewrite census_kw, census_app, census_commas; [reflexivity|].
+  apply Forall_app. split; [apply Forall_map; apply Forall_forall; intros x _; reflexivity|]. destruct va; repeat constructor.
+Qed.
+Lemma census_ptrivia d tv : census (ptrivia c d tv) = lc (map snd tv).
+Proof.
+  unfold ptrivia. induction tv as [|[b x] r IH]; [reflexivity|]. cbn [map List.concat fst snd]. rewrite <- !app_assoc.
+  assert (E : forall k, census ((if b then [eol c] else []) ++ k) = census k) by (intros k; destruct b; reflexivity).
+  rewrite E, census_indent. cbn [app]. rewrite census_com, census_eol, IH. reflexivity.
+Qed.
+Lemma lc_app a b : lc (a ++ b) = lc a ++ lc b. Proof. apply map_app. Qed.
+Definition Pc (s : stmt) : Prop := forall d, census (pstmt c d s) = lc (coms_s s).
+Definition Qc (r : els) : Prop := forall d, census (pels c d r) = lc (coms_e r).
+Definition Ic (i : item) : Prop := forall d, census (pitem c d i) = lc (coms_i i).
+Definition Bc (b : blk) : Prop := forall d, census (pblk c d b) = lc (coms_b b).
+Lemma census_fbody b d : Bc b -> census (fbody c d b) = lc (coms_b b).
+Proof.
+  intros H. unfold fbody. destruct b as [is tl]. destruct is as [|i r]; [destruct tl as [|t tl']|]; cbn [blk_empty].
+  - reflexivity.
+  - rewrite census_eol, census_app, H, census_indent. cbn [census norm_com]. rewrite app_nil_r. reflexivity.
+  - rewrite census_eol, census_app, H, census_indent. cbn [census norm_com]. rewrite app_nil_r. reflexivity.
+Qed.
+Opaque pblk.
+Lemma census_all : (forall s, Pc s) /\ (forall b, Bc b).
+Proof.
+  assert (HB : forall is, Forall Ic is -> forall d, census (List.concat (map (pitem c d) is)) = lc (List.concat (map coms_i is))).
+  { induction 1 as [|i r Hi Hr IH]; intros d; [reflexivity|]. cbn [map List.concat]. rewrite census_app, lc_app, Hi, IH. reflexivity. }
+  assert (Hitem : forall l bl s t, Pc s -> Ic (Item l bl s t)).
+  { intros l bl s t H d. rewrite p_item, census_app, census_ptrivia.
+    assert (E : forall k, census ((if bl then [eol c] else []) ++ k) = census k) by (intros k; destruct bl; reflexivity).
+    rewrite E, census_indent, census_app, H. cbn [coms_i]. rewrite !lc_app. f_equal. f_equal. destruct t; reflexivity. }
+  assert (H : forall s, Pc s); [|split; [exact H|]].
+  - apply (stmt_ind' Pc Qc Ic Bc); unfold Pc, Qc, Bc; intros; try (apply Hitem; assumption).
+    + destruct es; cbn [pstmt]; rewrite census_kw, census_sp; [apply census_pnames|].
+      rewrite census_app, census_pnames, census_sp, census_kw, census_sp. apply census_pexps.
+    + cbn [pstmt]. rewrite census_app, census_pexps, census_sp, census_kw, census_sp. apply census_pexps.
+    + cbn [pstmt]. apply census_pexp.
+    + rewrite p_do, census_kw, census_eol, census_app, H, census_indent. cbn [census norm_com coms_s]. rewrite app_nil_r. reflexivity.
+    + rewrite p_while, census_kw, census_sp, census_app, census_pexp, census_sp, census_kw, census_eol, census_app, H, census_indent. cbn [census norm_com coms_s]. rewrite app_nil_r. reflexivity.
+    + rewrite p_repeat, census_kw, census_eol, census_app, H, census_indent, census_kw, census_sp, census_pexp. cbn [coms_s]. rewrite app_nil_r. reflexivity.
+    + rewrite p_if, census_kw, census_sp, census_app, census_pexp, census_sp, census_kw, census_eol, census_app, H, census_app, H0, census_indent.
+      cbn [census norm_com coms_s]. rewrite app_nil_r, lc_app. reflexivity.
+    + rewrite p_numfor, census_kw, census_sp, census_ident, census_sp, census_kw, census_sp, census_app, census_pexp, census_kw, census_sp, census_app, census_pexp, census_app.
+      assert (E : census (match st with Some x => kw "," :: sp :: pexp x | None => [] end) = []) by (destruct st; [rewrite census_kw, census_sp; apply census_pexp|reflexivity]).
+      rewrite E, census_sp, census_kw, census_eol, census_app, H, census_indent. cbn [census norm_com coms_s]. rewrite app_nil_r. reflexivity.
+    + rewrite p_genfor, census_kw, census_sp, census_app, census_pnames, census_sp, census_kw, census_sp, census_app, census_pexps, census_sp, census_kw, census_eol, census_app, H, census_indent.
+      cbn [census norm_com coms_s]. rewrite app_nil_r. reflexivity.
+    + rewrite p_function, census_kw, census_sp, census_app, census_dotted, census_app.
+      assert (E : census (match m with Some n => [kw ":"; TIdent n] | None => [] end) = []) by (destruct m; reflexivity).
+      rewrite E, census_app, census_pparams. cbn [app coms_s]. apply census_fbody. exact H.
+    + rewrite p_localfunction, census_kw, census_sp, census_kw, census_sp, census_ident, census_app, census_pparams. cbn [app coms_s]. apply census_fbody. exact H.
+    + destruct es; cbn [pstmt]; [reflexivity|]. rewrite census_kw, census_sp. apply census_pexps.
+    + reflexivity.
+    + reflexivity.
+    + rewrite p_else, census_indent, census_kw, census_eol. apply H.
+    + rewrite p_elseif, census_indent, census_kw, census_sp, census_app, census_pexp, census_sp, census_kw, census_eol, census_app, H, H0. cbn [coms_e]. rewrite lc_app. reflexivity.
+    + rewrite p_blk, census_app, (HB is H), census_ptrivia. cbn [coms_b]. rewrite lc_app. reflexivity.
+  - intros b. destruct b as [is tl]. unfold Bc. intros d. rewrite p_blk, census_app, census_ptrivia. cbn [coms_b]. rewrite lc_app. f_equal.
+    apply HB. apply Forall_forall. intros i _. destruct i as [l bl s t]. apply Hitem. apply H.
+Qed.
+Transparent pblk.
+Theorem format0_comments_exact p : census (pprog c (nprog p)) = lc (coms_b p).
+Proof. rewrite format0_keeps_comments. unfold pprog. apply (proj2 census_all). Qed.
+End CensusProg.
 
 (* ---------- C10 on whole programs: the printed tokens pass the whitespace discipline ---------- *)
 Section Whitespace.
@@ -246,29 +400,40 @@ Variable c : cfg0.
 Notation pexp := (Fmt0.pexp (style0 c)).
 Notation pexps := (Fmt0.pexps (style0 c)).
 Definition wcfg (eof : bool) : wscfg := {| windows := windows0 c; spaces := spaces0 c; width := width0 c; eof_formatted := eof |}.
-(* the scan of Census.ws_scan on comment-free token lists, as a state machine (state: "at the start of a line");
-   it is stricter than ws_scan in one place: an indentation is judged even when nothing follows it *)
+(* the scan of Census.ws_scan on token lists whose comments are line comments without a carriage return, as a state
+   machine (state: "at the start of a line"); it is stricter than ws_scan in one place: an indentation is judged even
+   when nothing follows it *)
 Definition step (b : bool) (t : tok) : option bool :=
   match t with
   | TWs s => if negb (newlines_ok (windows0 c) s) then None
              else if ends_in_lf s then Some true
              else if b then (if indent_ok (wcfg false) s then Some false else None) else Some false
-  | TLineCom _ | TShebang _ | TBlockCom _ _ => None
+  | TLineCom s => if has_cr s then None else Some false
+  | TShebang _ | TBlockCom _ _ => None
   | _ => Some false
   end.
 Fixpoint run (b : bool) (ts : list tok) : option bool :=
   match ts with [] => Some b | t :: r => match step b t with Some b' => run b' r | None => None end end.
+Lemma no_cr_split s : has_cr s = false -> split_cr s = (s, false).
+Proof.
+  intros H. unfold split_cr. destruct (rev s) as [|x r] eqn:E; [reflexivity|].
+  assert (In x s) as I by (apply in_rev; rewrite E; left; reflexivity).
+  unfold has_cr in H. destruct (Quote.eqc x Lex.CR) eqn:X; [|reflexivity].
+  exfalso. assert (existsb (fun c0 => Quote.eqc c0 Lex.CR) s = true) as T by (apply existsb_exists; exists x; split; assumption).
+  rewrite T in H. discriminate.
+Qed.
 Lemma run_sound eof : forall ts b b', run b ts = Some b' -> ws_scan (wcfg eof) b false ts = None.
 Proof.
   induction ts as [|t r IH]; intros b b' H; [reflexivity|].
   cbn [run] in H. destruct (step b t) as [b1|] eqn:S; [|discriminate].
   destruct t; cbn [step] in S; try discriminate; cbn [ws_scan]; try (eapply IH; injection S as <-; exact H).
-  cbn [windows wcfg]. destruct (newlines_ok (windows0 c) s); cbn [negb] in *; [|discriminate].
-  destruct (ends_in_lf s); [injection S as <-; eapply IH; exact H|].
-  destruct b.
-  - change (indent_ok (wcfg eof) s) with (indent_ok (wcfg false) s).
-    destruct (indent_ok (wcfg false) s); [|discriminate]. injection S as <-. destruct r; [reflexivity|]. eapply IH; exact H.
-  - injection S as <-. eapply IH; exact H.
+  - cbn [windows wcfg]. destruct (newlines_ok (windows0 c) s); cbn [negb] in *; [|discriminate].
+    destruct (ends_in_lf s); [injection S as <-; eapply IH; exact H|].
+    destruct b.
+    + change (indent_ok (wcfg eof) s) with (indent_ok (wcfg false) s).
+      destruct (indent_ok (wcfg false) s); [|discriminate]. injection S as <-. destruct r; [reflexivity|]. eapply IH; exact H.
+    + injection S as <-. eapply IH; exact H.
+  - destruct (has_cr s) eqn:C; [discriminate|]. injection S as <-. rewrite (no_cr_split s C), C. eapply IH; exact H.
 Qed.
 Lemma run_app a r b : run b (a ++ r) = match run b a with Some b' => run b' r | None => None end.
 Proof. revert b. induction a as [|t a IH]; intros b; [reflexivity|]. cbn [app run]. destruct (step b t); [apply IH|reflexivity]. Qed.
@@ -281,6 +446,8 @@ Lemma run_sp r : run false (sp :: r) = run false r.
 Proof. cbn [run step sp]. destruct (windows0 c); reflexivity. Qed.
 Lemma run_eol r b : run b (eol c :: r) = run true r.
 Proof. unfold eol. cbn [run step]. destruct (windows0 c); reflexivity. Qed.
+Lemma run_com x r b : has_cr x = false -> run b (TLineCom x :: r) = run false r.
+Proof. intros H. cbn [run step]. rewrite H. reflexivity. Qed.
 Lemma forallb_repeat (f : ascii -> bool) x n : f x = true -> forallb f (repeat x n) = true.
 Proof. intros H. induction n as [|n IH]; cbn; [reflexivity|]. rewrite H, IH. reflexivity. Qed.
 Lemma newlines_ok_blanks win x n : Ascii.eqb x CR = false -> Ascii.eqb x LF = false -> newlines_ok win (repeat x n) = true.
@@ -318,7 +485,7 @@ Lemma run_commas_false l : Forall inline l -> run false (commas l) = Some false.
 Proof. intros H. rewrite run_commas by exact H. destruct l; reflexivity. Qed.
 Lemma inline_pexp : forall e, inline (pexp e).
 Proof.
-  induction e using exp_ind'; intros b0; cbn [pexp]; try reflexivity.
+  induction e using exp_ind'; intros b0; cbn [Fmt0.pexp]; try reflexivity.
   - rewrite run_app, IHe. reflexivity.
   - rewrite run_app, IHe1, run_kw, run_app, IHe2. reflexivity.
   - rewrite run_app, IHe, run_kw, run_app, run_commas_false; [reflexivity|]. apply Forall_map. exact H.
@@ -344,83 +511,101 @@ Proof.
   apply Forall_app. split; [apply Forall_map; apply Forall_forall; intros x _ b; reflexivity|]. destruct va; [repeat constructor; intros b; reflexivity|constructor].
 Qed.
 
-(* the one shape the grammar excludes and the printer would misplace: an assignment without a target *)
+(* well-formedness: an assignment has a target (the one shape the printer would misplace), comments hold no carriage return *)
+Definition wf_trivia (tv : trivia) : Prop := Forall (fun bc : bool * bytes => has_cr (snd bc) = false) tv.
 Fixpoint wf_stmt (s : stmt) : Prop :=
-  let all := fix all (l : list stmt) : Prop := match l with [] => True | x :: r => wf_stmt x /\ all r end in
   match s with
   | SAssign vs _ => vs <> []
-  | SDo b | SWhile _ b | SRepeat b _ | SNumFor _ _ _ _ b | SGenFor _ _ b | SFunction _ _ _ _ b | SLocalFunction _ _ _ b => all b
-  | SIf _ t r => all t /\ (fix wfe (r : els) : Prop := match r with NoElse => True | Else b => all b | ElseIf _ t2 r2 => all t2 /\ wfe r2 end) r
+  | SDo b | SWhile _ b | SRepeat b _ | SNumFor _ _ _ _ b | SGenFor _ _ b | SFunction _ _ _ _ b | SLocalFunction _ _ _ b => wf_blk b
+  | SIf _ t r => wf_blk t /\ wf_els r
   | _ => True
-  end.
-Fixpoint wf_block (l : list stmt) : Prop := match l with [] => True | x :: r => wf_stmt x /\ wf_block r end.
-Fixpoint wf_els (r : els) : Prop := match r with NoElse => True | Else b => wf_block b | ElseIf _ t2 r2 => wf_block t2 /\ wf_els r2 end.
-Lemma wf_block_Forall l (P : stmt -> Prop) : Forall (fun s => wf_stmt s -> P s) l -> wf_block l -> Forall P l.
-Proof. induction 1 as [|x r Hx Hr IH]; intros W; [constructor|]. destruct W as [W1 W2]. constructor; [apply Hx, W1|apply IH, W2]. Qed.
+  end
+with wf_els (r : els) : Prop := match r with NoElse => True | Else b => wf_blk b | ElseIf _ t2 r2 => wf_blk t2 /\ wf_els r2 end
+with wf_item (i : item) : Prop :=
+  match i with Item l _ s t => wf_trivia l /\ wf_stmt s /\ match t with Some x => has_cr x = false | None => True end end
+with wf_blk (b : blk) : Prop :=
+  match b with Blk is tl => (fix all (l : list item) : Prop := match l with [] => True | x :: r => wf_item x /\ all r end) is /\ wf_trivia tl end.
+Fixpoint wf_items (l : list item) : Prop := match l with [] => True | x :: r => wf_item x /\ wf_items r end.
+Lemma wf_blk_eq is tl : wf_blk (Blk is tl) = (wf_items is /\ wf_trivia tl).
+Proof. reflexivity. Qed.
 
+Lemma run_ptrivia d tv : wf_trivia tv -> run true (ptrivia c d tv) = Some true.
+Proof.
+  unfold ptrivia. induction 1 as [|[b x] r Hx Hr IH]; [reflexivity|]. cbn [map List.concat fst snd].
+  rewrite <- !app_assoc. assert (E : forall k, run true ((if b then [eol c] else []) ++ k) = run true k) by (intros k; destruct b; [cbn [app]; apply run_eol|reflexivity]).
+  rewrite E, run_indent. cbn [app]. cbn [snd] in Hx. rewrite (run_com x _ _ Hx), run_eol. exact IH.
+Qed.
 Definition Pw (s : stmt) : Prop := wf_stmt s -> forall d b, run b (pstmt c d s) = Some false.
 Definition Qw (r : els) : Prop := wf_els r -> forall d, run true (pels c d r) = Some true.
-Lemma run_pblock l : Forall (fun s => forall d b, run b (pstmt c d s) = Some false) l -> forall d, run true (pblock c d l) = Some true.
+Definition Iw (i : item) : Prop := wf_item i -> forall d, run true (pitem c d i) = Some true.
+Definition Bw (b : blk) : Prop := wf_blk b -> forall d, run true (pblk c d b) = Some true.
+Lemma run_block_end b d : Bw b -> wf_blk b -> run true (pblk c (S d) b ++ indent c d ++ [kw "end"]) = Some false.
+Proof. intros H W. rewrite run_app, H by exact W. rewrite run_indent. reflexivity. Qed.
+Lemma run_fbody b d : Bw b -> wf_blk b -> run false (fbody c d b) = Some false.
 Proof.
-  induction 1 as [|s r Hs Hr IH]; intros d; [reflexivity|].
-  rewrite pblock_cons, run_indent, run_app, Hs, run_eol. apply IH.
+  intros H W. unfold fbody. destruct (blk_empty b); [rewrite run_sp; reflexivity|]. rewrite run_eol. apply run_block_end; assumption.
 Qed.
-Lemma run_block_end l d : Forall (fun s => forall d b, run b (pstmt c d s) = Some false) l ->
-  run true (pblock c (S d) l ++ indent c d ++ [kw "end"]) = Some false.
-Proof. intros H. rewrite run_app, run_pblock by exact H. rewrite run_indent. reflexivity. Qed.
-Lemma run_fbody l d : Forall (fun s => forall d b, run b (pstmt c d s) = Some false) l -> run false (fbody c d l) = Some false.
+Opaque pblk.
+Lemma discipline_all : (forall s, Pw s) /\ (forall b, Bw b).
 Proof.
-  intros H. destruct l as [|s r]; [unfold fbody; rewrite run_sp; reflexivity|].
-  change (fbody c d (s :: r)) with (eol c :: pblock c (S d) (s :: r) ++ indent c d ++ [kw "end"]). rewrite run_eol. apply run_block_end. exact H.
+  assert (HB : forall is, Forall Iw is -> wf_items is -> forall d, run true (List.concat (map (pitem c d) is)) = Some true).
+  { induction 1 as [|i r Hi Hr IH]; intros W d; [reflexivity|]. destruct W as [W1 W2]. cbn [map List.concat]. rewrite run_app, Hi by exact W1. apply IH. exact W2. }
+  assert (H : forall s, Pw s); [|split; [exact H|]].
+  - apply (stmt_ind' Pw Qw Iw Bw); unfold Pw, Qw, Iw, Bw; intros.
+    + (* SLocal *) destruct es as [|e es']; cbn [pstmt]; rewrite run_kw, run_sp.
+      * apply inline_pnames_false.
+      * rewrite run_app, inline_pnames_false, run_sp, run_kw, run_sp. apply inline_pexps_false.
+    + (* SAssign *) cbn [pstmt]. rewrite run_app. cbn [wf_stmt] in H.
+      rewrite (inline_commas_ne (map pexp vs)); [|destruct vs; [contradiction|discriminate]|apply Forall_map; apply Forall_forall; intros x _; apply inline_pexp].
+      rewrite run_sp, run_kw, run_sp. apply inline_pexps_false.
+    + (* SCall *) cbn [pstmt]. apply inline_pexp.
+    + (* SDo *) rewrite p_do, run_kw, run_eol. apply run_block_end; assumption.
+    + (* SWhile *) rewrite p_while, run_kw, run_sp, run_app, inline_pexp, run_sp, run_kw, run_eol. apply run_block_end; assumption.
+    + (* SRepeat *) rewrite p_repeat, run_kw, run_eol, run_app, H by exact H0. rewrite run_indent. rewrite run_kw, run_sp. apply inline_pexp.
+    + (* SIf *) destruct H1 as [W1 W2]. rewrite p_if, run_kw, run_sp, run_app, inline_pexp, run_sp, run_kw, run_eol.
+      rewrite run_app, H by exact W1. rewrite run_app, H0 by exact W2. rewrite run_indent. reflexivity.
+    + (* SNumFor *) rewrite p_numfor, run_kw, run_sp. rewrite run_plain by reflexivity. rewrite run_sp, run_kw, run_sp, run_app, inline_pexp, run_kw, run_sp, run_app, inline_pexp.
+      rewrite run_app. assert (E : run false (match st with Some x => kw "," :: sp :: pexp x | None => [] end) = Some false).
+      { destruct st; [rewrite run_kw, run_sp; apply inline_pexp|reflexivity]. }
+      rewrite E, run_sp, run_kw, run_eol. apply run_block_end; assumption.
+    + (* SGenFor *) rewrite p_genfor, run_kw, run_sp, run_app, inline_pnames_false, run_sp, run_kw, run_sp, run_app, inline_pexps_false, run_sp, run_kw, run_eol.
+      apply run_block_end; assumption.
+    + (* SFunction *) rewrite p_function, run_kw, run_sp, run_app, run_dotted, run_app.
+      assert (E : run false (match m with Some n => [kw ":"; TIdent n] | None => [] end) = Some false) by (destruct m; reflexivity).
+      rewrite E, run_pparams. apply run_fbody; assumption.
+    + (* SLocalFunction *) rewrite p_localfunction, run_kw, run_sp, run_kw, run_sp. rewrite run_plain by reflexivity. rewrite run_pparams.
+      apply run_fbody; assumption.
+    + (* SReturn *) destruct es as [|e es']; cbn [pstmt]; [reflexivity|]. rewrite run_kw, run_sp. apply inline_pexps_false.
+    + (* SBreak *) reflexivity.
+    + (* NoElse *) reflexivity.
+    + (* Else *) rewrite p_else, run_indent, run_kw, run_eol. apply H. exact H0.
+    + (* ElseIf *) destruct H1 as [W1 W2]. rewrite p_elseif, run_indent, run_kw, run_sp, run_app, inline_pexp, run_sp, run_kw, run_eol.
+      rewrite run_app, H by exact W1. apply H0. exact W2.
+    + (* Item *) destruct H0 as (W1 & W2 & W3). rewrite p_item, run_app, run_ptrivia by exact W1.
+      assert (E : forall k, run true ((if b then [eol c] else []) ++ k) = run true k) by (intros k; destruct b; [cbn [app]; apply run_eol|reflexivity]).
+      rewrite E, run_indent, run_app, H by exact W2. destruct t as [x|]; cbn [ptrail app].
+      * rewrite run_sp, (run_com x _ _ W3), run_eol. reflexivity.
+      * rewrite run_eol. reflexivity.
+    + (* Blk *) rewrite wf_blk_eq in H0. destruct H0 as [W1 W2]. rewrite p_blk, run_app, (HB is H W1). apply run_ptrivia. exact W2.
+  - intros b. destruct b as [is tl]. unfold Bw. intros W d. rewrite wf_blk_eq in W. destruct W as [W1 W2].
+    rewrite p_blk, run_app, (HB is); [apply run_ptrivia; exact W2| |exact W1].
+    apply Forall_forall. intros i _. destruct i as [l bl s t]. unfold Iw. intros (V1 & V2 & V3) d0.
+    rewrite p_item, run_app, run_ptrivia by exact V1.
+    assert (E : forall k, run true ((if bl then [eol c] else []) ++ k) = run true k) by (intros k; destruct bl; [cbn [app]; apply run_eol|reflexivity]).
+    rewrite E, run_indent, run_app, (H s V2). destruct t as [x|]; cbn [ptrail app].
+    + rewrite run_sp, (run_com x _ _ V3), run_eol. reflexivity.
+    + rewrite run_eol. reflexivity.
 Qed.
-Opaque pblock.
-Lemma stmt_discipline : forall s, Pw s.
-Proof.
-  apply (stmt_ind' Pw Qw); unfold Pw, Qw; intros.
-  - (* SLocal *) destruct es as [|e es']; cbn [pstmt]; rewrite run_kw, run_sp.
-    + apply inline_pnames_false.
-    + rewrite run_app, inline_pnames_false, run_sp, run_kw, run_sp. apply inline_pexps_false.
-  - (* SAssign *) cbn [pstmt]. rewrite run_app. cbn [wf_stmt] in H.
-    rewrite (inline_commas_ne (map pexp vs)); [|destruct vs; [contradiction|discriminate]|apply Forall_map; apply Forall_forall; intros x _; apply inline_pexp].
-    rewrite run_sp, run_kw, run_sp. apply inline_pexps_false.
-  - (* SCall *) cbn [pstmt]. apply inline_pexp.
-  - (* SDo *) rewrite p_do, run_kw, run_eol. apply run_block_end. apply (wf_block_Forall b _ H). exact H0.
-  - (* SWhile *) rewrite p_while, run_kw, run_sp, run_app, inline_pexp, run_sp, run_kw, run_eol. apply run_block_end. apply (wf_block_Forall b _ H). exact H0.
-  - (* SRepeat *) rewrite p_repeat, run_kw, run_eol, run_app, run_pblock by (apply (wf_block_Forall b _ H); exact H0).
-    rewrite run_indent. rewrite run_kw, run_sp. apply inline_pexp.
-  - (* SIf *) destruct H1 as [W1 W2]. rewrite p_if, run_kw, run_sp, run_app, inline_pexp, run_sp, run_kw, run_eol.
-    rewrite run_app, run_pblock by (apply (wf_block_Forall t _ H); exact W1). rewrite run_app, H0 by exact W2. rewrite run_indent. reflexivity.
-  - (* SNumFor *) rewrite p_numfor, run_kw, run_sp. rewrite run_plain by reflexivity. rewrite run_sp, run_kw, run_sp, run_app, inline_pexp, run_kw, run_sp, run_app, inline_pexp.
-    rewrite run_app. assert (E : run false (match st with Some x => kw "," :: sp :: pexp x | None => [] end) = Some false).
-    { destruct st; [rewrite run_kw, run_sp; apply inline_pexp|reflexivity]. }
-    rewrite E, run_sp, run_kw, run_eol. apply run_block_end. apply (wf_block_Forall body _ H). exact H0.
-  - (* SGenFor *) rewrite p_genfor, run_kw, run_sp, run_app, inline_pnames_false, run_sp, run_kw, run_sp, run_app, inline_pexps_false, run_sp, run_kw, run_eol.
-    apply run_block_end. apply (wf_block_Forall body _ H). exact H0.
-  - (* SFunction *) rewrite p_function, run_kw, run_sp, run_app, run_dotted, run_app.
-    assert (E : run false (match m with Some n => [kw ":"; TIdent n] | None => [] end) = Some false) by (destruct m; reflexivity).
-    rewrite E, run_pparams. apply run_fbody. apply (wf_block_Forall body _ H). exact H0.
-  - (* SLocalFunction *) rewrite p_localfunction, run_kw, run_sp, run_kw, run_sp. rewrite run_plain by reflexivity. rewrite run_pparams.
-    apply run_fbody. apply (wf_block_Forall body _ H). exact H0.
-  - (* SReturn *) destruct es as [|e es']; cbn [pstmt]; [reflexivity|]. rewrite run_kw, run_sp. apply inline_pexps_false.
-  - (* SBreak *) reflexivity.
-  - (* NoElse *) reflexivity.
-  - (* Else *) rewrite p_else, run_indent, run_kw, run_eol. apply run_pblock. apply (wf_block_Forall b _ H). exact H0.
-  - (* ElseIf *) destruct H1 as [W1 W2]. rewrite p_elseif, run_indent, run_kw, run_sp, run_app, inline_pexp, run_sp, run_kw, run_eol.
-    rewrite run_app, run_pblock by (apply (wf_block_Forall t _ H); exact W1). apply H0. exact W2.
-Qed.
-Transparent pblock.
-Theorem format0_whitespace_discipline p eof : wf_block p -> ws_scan (wcfg eof) true false (pprog c p) = None.
-Proof.
-  intros W. apply (run_sound eof _ true true). unfold pprog. apply run_pblock.
-  apply (wf_block_Forall p _); [|exact W]. apply Forall_forall. intros s _. apply stmt_discipline.
-Qed.
+Transparent pblk.
+Theorem format0_whitespace_discipline p eof : wf_blk p -> ws_scan (wcfg eof) true false (pprog c p) = None.
+Proof. intros W. apply (run_sound eof _ true true). unfold pprog. apply (proj2 discipline_all). exact W. Qed.
 End Whitespace.
 
 (* ---------- C06: normalisation is not idempotent on all of L0 ---------- *)
 (* `local x = (- -f())`: the first pass keeps the outer parentheses (the rule looks through the unary operators and finds
    a call, whose parentheses could truncate), and guards the double minus: `(-(-f()))`; the second pass finds
    parentheses under the outer minus, which the rule always lets go: `-(-f())`.  The binary does exactly this. *)
-Definition witness_not_idempotent : list stmt :=
-  [SLocal [str "x"] [EParen (EUn Neg (EUn Neg (ECall (EName (str "f")) [])))]].
+Definition witness_not_idempotent : blk :=
+  Blk [Item [] false (SLocal [str "x"] [EParen (EUn Neg (EUn Neg (ECall (EName (str "f")) [])))]) None] [].
 Theorem nprog_not_idempotent_refuted : exists p, nprog (nprog p) <> nprog p.
 Proof. exists witness_not_idempotent. vm_compute. discriminate. Qed.
